@@ -314,15 +314,18 @@ def classLoop : List Nat → List (Nat × Nat) → Bool → Bool → Except PErr
         | .ok r => classLoop rest r false false
       else classLoop rest (ranges ++ [(c, c)]) false false
 
+/-- the negation test at the start of `parse_class`: `Some('!') | Some('^')` is bumped -/
+def classNeg (rest : List Nat) : Bool × List Nat :=
+  match rest with
+  | 33 :: r => (true, r)
+  | 94 :: r => (true, r)
+  | r => (false, r)
+
 /-- `parse_class`, entered after `[` was bumped -/
 def parseClass (rest : List Nat) : Except PErr (Tok × List Nat) :=
-  let (neg, rest) := match rest with
-    | 33 :: r => (true, r)
-    | 94 :: r => (true, r)
-    | r => (false, r)
-  match classLoop rest [] true false with
+  match classLoop (classNeg rest).2 [] true false with
   | .error e => .error e
-  | .ok (ranges, rest') => .ok (.cls neg ranges, rest')
+  | .ok (ranges, rest') => .ok (.cls (classNeg rest).1 ranges, rest')
 
 /-- the `while let Some(c) = self.bump()` loop of `Parser::parse` -/
 def parseLoop (o : Opts) : Nat → PState → List Nat → Except PErr PState
